@@ -48,6 +48,11 @@ std::string corrupt(int kind, unsigned param)
 	case 6: return std::string("8+FIX.4.2") + SOH + "9=5" + SOH + tail;                 // missing '='
 	case 7: return std::string("8=FIX.4.2") + SOH + "9=" + SOH + tail;                  // empty BodyLength
 	case 8: return std::string(13 + param, '3') + SOH + tail;                           // only digits where the preamble should be
+	case 10:                                                                           // wrong BeginString, near misses of the right one
+	{
+		static const char *wrong[] = { "FIX.4.20", "FIX.4.2X", "FIX.4.2 ", "FIX.4.", "FIX.4", "fix.4.2", "XFIX.4.2", " FIX.4.2", "FIX.4.1", "FIX.4.3", "FIX.5.0", "FIX,4.2", "FIX.4.2.", "F" };
+		return std::string("8=") + wrong[param % (sizeof wrong / sizeof *wrong)] + SOH + "9=5" + SOH + tail;
+	}
 	default: return std::string("8=FIXT1.1") + SOH + "9=5" + SOH + tail;
 	}
 }
@@ -82,8 +87,8 @@ struct C15 : drv::Harness
 		if (fam < 4)
 		{
 			static const std::vector<int64_t> params = { 0, 1, 2, 5, 20, 40, 2100, 8000, 8192, 9000 };
-			int kind = (int)rng.below(10);
-			p.ops.insert(p.ops.begin() + rng.below(p.ops.size() + 1), Op("bad", { kind, rng.pick(params) }));
+			int kind = (int)rng.below(12); if (kind == 11) kind = 10;
+			p.ops.insert(p.ops.begin() + rng.below(p.ops.size() + 1), Op("bad", { kind, kind == 10 ? (int64_t)rng.below(14) : rng.pick(params) }));
 		}
 		else if (fam < 7 && pm != pm_coro) p.ops.push_back(Op("eof", { rng.range(0, 1000) }));   // per-mille position in the stream
 		return p;
